@@ -137,7 +137,7 @@ Qed.
 (* ---- invariants of every history that starts at CreateSCTE35 ---- *)
 Definition desc_inv (d : segdesc) : Prop :=
   (d_upid_type d = SegUPIDMID -> d_upid d = []) /\ (d_upid_type d <> SegUPIDMID -> d_mid d = []) /\
-  d_duration d < 1099511627776.
+  d_duration d < 1099511627776 /\ Forall (fun u => u_len u = len (u_upid u)) (d_mid d).
 Definition comp_inv (c : component) : Prop := c_pts c < 8589934592.
 Definition cmd_inv (c : command) : Prop :=
   cmd_pts c < 8589934592 /\ match c with CInsert i => Forall comp_inv (i_components i) | _ => True end.
@@ -154,15 +154,33 @@ Qed.
 Lemma desc_inv_step o d : desc_inv d -> desc_inv (apply_desc_op o d).
 Proof.
   destruct d as [ty eid hasdur dur uty u m sn se ssn sse owner cancel dnr hassub prog web nobl arch dev comps].
-  unfold desc_inv. cbn [d_upid_type d_upid d_mid d_duration]. intros (H1 & H2 & H3).
+  unfold desc_inv. cbn [d_upid_type d_upid d_mid d_duration]. intros (H1 & H2 & H3 & H4).
   destruct o; cbn [apply_desc_op];
     try destruct (N.eqb_spec v SegUPIDMID); try destruct (v =? 0);
     try destruct (N.eqb_spec uty SegUPIDMID);
     cbn [negb d_upid_type d_upid d_mid d_duration];
-    repeat split; auto; try (intros; contradiction); try congruence; try (apply N.mod_lt; discriminate).
+    repeat split; auto; try (intros; contradiction); try congruence; try (apply N.mod_lt; discriminate);
+    try (apply Forall_map; apply Forall_forall; intros x _; reflexivity);
+    try (apply upd_nth_Forall; [assumption|]; intros x Hx; cbn [u_len u_upid]; first [reflexivity|exact Hx]).
+Qed.
+
+(* UPID.SetUPID through MID()[j] (0cd2c00): the element's bytes and its length are both updated *)
+Lemma mid_setupid_law d j b : d_upid_type d = SegUPIDMID -> (j < length (d_mid d))%nat ->
+  let d' := apply_desc_op (DMidSetUPID j b) d in
+  u_upid (nth j (get_mid d') (mkupid 0 0 [])) = b /\ u_len (nth j (d_mid d') (mkupid 0 0 [])) = len b /\
+  u_type (nth j (get_mid d') (mkupid 0 0 [])) = u_type (nth j (d_mid d) (mkupid 0 0 [])) /\
+  length (d_mid d') = length (d_mid d).
+Proof.
+  destruct d as [ty eid hasdur dur uty u m sn se ssn sse owner cancel dnr hassub prog web nobl arch dev comps].
+  cbn [d_upid_type d_mid]. intros -> Hj. unfold get_mid. cbn [apply_desc_op].
+  change (SegUPIDMID =? SegUPIDMID) with true. cbn [negb d_upid_type d_mid].
+  change (SegUPIDMID =? SegUPIDMID) with true. cbn [negb].
+  revert j Hj. induction m as [|x m IH]; intros [|j] Hj; cbn in *; try lia.
+  - repeat split; reflexivity.
+  - destruct (IH j ltac:(lia)) as (A & B & C & D). repeat split; auto.
 Qed.
 Lemma desc_inv_seg0 o : desc_inv (seg0 o).
-Proof. unfold desc_inv, seg0. cbn. repeat split; auto; try lia; try discriminate. Qed.
+Proof. unfold desc_inv, seg0. cbn. repeat split; auto; try lia; try discriminate; constructor. Qed.
 Lemma desc_inv_fold ops d : desc_inv d -> desc_inv (fold_left (fun d o => apply_desc_op o d) ops d).
 Proof. revert d. induction ops as [|o ops IH]; intros d H; [exact H|]. cbn [fold_left]. apply IH, desc_inv_step, H. Qed.
 Lemma desc_inv_owner o d : desc_inv d -> desc_inv (set_owner o d).
